@@ -1,6 +1,7 @@
 import functools
 
 from dask.dataframe import methods
+from dask.dataframe.utils import is_dataframe_like, is_series_like
 from dask.utils import M
 
 from dask_expr._expr import Blockwise, Expr, Projection, plain_column_projection
@@ -25,7 +26,9 @@ class CumulativeAggregations(Expr):
             self.frame, self.axis, self.skipna, self.chunk_operation
         )
         chunks_last = TakeLast(chunks, self.skipna)
-        return CumulativeFinalize(chunks, chunks_last, self.aggregate_operation)
+        return CumulativeFinalize(
+            chunks, chunks_last, self.aggregate_operation, self.skipna
+        )
 
     def _simplify_up(self, parent, dependents):
         if isinstance(parent, Projection):
@@ -68,7 +71,8 @@ class TakeLast(Blockwise):
 
 
 class CumulativeFinalize(Expr):
-    _parameters = ["frame", "previous_partitions", "aggregator"]
+    _parameters = ["frame", "previous_partitions", "aggregator", "skipna"]
+    _defaults = {"skipna": True}
 
     def _divisions(self):
         return self.frame._divisions()
@@ -93,23 +97,35 @@ class CumulativeFinalize(Expr):
                     self.aggregator,
                     (intermediate_name, i - 1),
                     (previous_partitions._name, i - 1),
+                    self.skipna,
                 )
             dsk[(self._name, i)] = (
                 _cum_aggregate,
                 self.aggregator,
                 (self.frame._name, i),
                 (intermediate_name, i),
+                self.skipna,
             )
         return dsk
 
 
-def _cum_aggregate(aggregate, x, y):
+def _cum_aggregate(aggregate, x, y, skipna=True):
     # Leading partitions that are empty (or all-NaN) have no last value yet
     if y is None:
         return x
     if x is None:
         return y
-    return aggregate(x, y)
+    out = aggregate(x, y)
+    if skipna and is_series_like(y):
+        # ``y`` holds one last value per column of a DataFrame. A column that was
+        # all-NaN so far has no last value yet and must not poison the result
+        if is_dataframe_like(x):
+            # broadcast the per-column flags over the rows of the partition
+            has_last = (x.isna() | x.notna()) & y.notna()
+            out = out.where(has_last, x)
+        else:
+            out = out.where(y.notna(), x).where(x.notna(), y)
+    return out
 
 
 class CumSum(CumulativeAggregations):
